@@ -57,13 +57,13 @@ def gen_cases(rng, tier):
         known = [ie for ie, u in zip(ies, layout) if not u]
         tpl_k = W.message(dom, 2, W.template_body(tid, known))
         data_k = W.message(dom, tid, b"".join(W.record_bytes(known, [v for v, u in zip(r, layout) if not u]) for r in recs))
-        ops = []
-        for mode in ("strict", "keep", "drop"):
-            ops += ["dec new " + mode, "dec pkt " + tpl.hex(), "dec pkt " + data.hex(), "dec keys"]
-        ops += ["dec new strict", "dec pkt " + tpl_k.hex(), "dec pkt " + data_k.hex()]
-        # one collector usually sees MANY templates: before the template under test, send another
-        # template (other id) in each session that mentions the same unknown (enterprise, id) pairs with
-        # a DIFFERENT length - the element created for the first must not leak into the second
+        # one collector usually sees MANY templates. Before the template under test each session may get
+        # (a) another template (other id) that mentions the same unknown (enterprise, id) pairs with a
+        #     DIFFERENT length - the element created for the first must not leak into the second;
+        # (b) an accepted, fully known PREDECESSOR with the SAME (domain, id): in strict mode the template
+        #     under test is then a rejected re-definition, and the data that follows must be rejected too
+        #     (not decoded with the predecessor); in keep / drop mode it simply replaces the predecessor
+        pres = []
         if any(layout) and rng.random() < 0.5:
             other = []
             for ie, u in zip(ies, layout):
@@ -72,9 +72,14 @@ def gen_cases(rng, tier):
                     other.append(G.IE(ie.ent, ie.id, 0, ln, ""))
                 else:
                     other.append(ie)
-            pre = W.message(dom, 2, W.template_body(tid + 1 if tid < 65535 else 256, other))
-            for base in (0, 5, 10):     # strict, keep, drop sessions
-                ops.insert(base + 1, "dec pkt " + pre.hex())
+            pres.append("dec pkt " + W.message(dom, 2, W.template_body(tid + 1 if tid < 65535 else 256, other)).hex())
+        if any(layout) and rng.random() < 0.35:
+            pred = known if known and rng.random() < 0.5 else [rng.choice(sup) for _ in range(rng.randint(1, 4))]
+            pres.append("dec pkt " + W.message(dom, 2, W.template_body(tid, pred)).hex())
+        ops = []
+        for mode in ("strict", "keep", "drop"):
+            ops += ["dec new " + mode] + pres + ["dec pkt " + tpl.hex(), "dec pkt " + data.hex(), "dec keys"]
+        ops += ["dec new strict", "dec pkt " + tpl_k.hex(), "dec pkt " + data_k.hex()]
         inner = any(layout[i] and any(not x for x in layout[:i]) and any(not x for x in layout[i + 1:]) for i in range(k))
         label = "zero-len" if zero else ("all-known" if not any(layout) else ("all-unknown" if all(layout) else "mixed"))
         cases.append(Case(ops, label, inner, True))
